@@ -124,7 +124,7 @@ def run(args):
     rnd = random.Random(args.seed)
     info = C.std_coq_phase(run, ["engine"], TARGETS, PROP_FILE)
     broken = bool(run.failed_obligations())
-    items = streams.all_streams(rnd, args.tier if not broken else "thorough", n_fam=None if not broken else 6000)
+    items = streams.all_streams(rnd, "quick" if args.tier == "quick" else "thorough", n_fam=None if not broken else 3000)
     ctx = make_ctx(rnd, args.tier)
     new, seen_known, kn = oracle.run_oracle(run, PROP, items, oracle_fn, ctx)
     nviol = oracle.report(run, PROP, new, seen_known, kn, replay_known=lambda e: replay_entry(e))
